@@ -29,8 +29,9 @@ import (
 //
 // is inserted: a scheduling point plus a conflicting operation on the named
 // objects (happens-before hashing). Local variables assigned from an
-// expression that mentions a suspect count as aliases of it. A statement is
-// the unit of atomicity.
+// expression that mentions a suspect count as aliases of it, and so do the
+// results of functions that return such an expression (by function name, to
+// a fixpoint). A statement is the unit of atomicity.
 // Files without insertions are not emitted. For every emitted file one line
 // "<source path>\t<generated path>" is printed (for the build overlay).
 func globalsMode(dir, outPrefix, shim string) {
@@ -169,9 +170,27 @@ func globalsMode(dir, outPrefix, shim string) {
 	// point as well. Flow-insensitive, to a fixpoint, per file; over-tainting
 	// only adds points.
 	tainted := map[*ast.Object]map[string]bool{}
+	// funcTaint: functions and methods (by name: there is no type information)
+	// whose results may be another name for suspect memory (return scratch[:n]);
+	// a call of such a function counts as a mention of that memory
+	funcTaint := map[string]map[string]bool{}
+	callee := func(c *ast.CallExpr) string {
+		switch f := c.Fun.(type) {
+		case *ast.Ident:
+			return f.Name
+		case *ast.SelectorExpr:
+			return f.Sel.Name
+		}
+		return ""
+	}
 	mentions := func(n ast.Node) map[string]bool {
 		out := map[string]bool{}
 		ast.Inspect(n, func(m ast.Node) bool {
+			if c, ok := m.(*ast.CallExpr); ok {
+				for k := range funcTaint[callee(c)] {
+					out[k] = true
+				}
+			}
 			if id, ok := m.(*ast.Ident); ok && id.Obj != nil {
 				if suspect[id.Obj] {
 					out[pkgVars[id.Obj]] = true
@@ -204,8 +223,46 @@ func globalsMode(dir, outPrefix, shim string) {
 		}
 		return changed
 	}
-	for round := 0; round < 4; round++ {
+	for round := 0; round < 6; round++ {
 		changedAny := false
+		for _, p := range names {
+			for _, d := range files[p].Decls {
+				fd, ok := d.(*ast.FuncDecl)
+				if !ok || fd.Body == nil || fd.Type.Results == nil {
+					continue
+				}
+				got := map[string]bool{}
+				for _, fld := range fd.Type.Results.List {
+					for _, id := range fld.Names { // named results (naked return)
+						for k := range tainted[id.Obj] {
+							got[k] = true
+						}
+					}
+				}
+				ast.Inspect(fd.Body, func(n ast.Node) bool {
+					switch x := n.(type) {
+					case *ast.FuncLit:
+						return false
+					case *ast.ReturnStmt:
+						for _, r := range x.Results {
+							for k := range mentions(r) {
+								got[k] = true
+							}
+						}
+					}
+					return true
+				})
+				for k := range got {
+					if funcTaint[fd.Name.Name] == nil {
+						funcTaint[fd.Name.Name] = map[string]bool{}
+					}
+					if !funcTaint[fd.Name.Name][k] {
+						funcTaint[fd.Name.Name][k] = true
+						changedAny = true
+					}
+				}
+			}
+		}
 		for _, p := range names {
 			ast.Inspect(files[p], func(n ast.Node) bool {
 				switch x := n.(type) {
@@ -253,6 +310,10 @@ func globalsMode(dir, outPrefix, shim string) {
 			switch x := m.(type) {
 			case *ast.FuncLit:
 				return false
+			case *ast.CallExpr:
+				for k := range funcTaint[callee(x)] {
+					into[k] = true
+				}
 			case *ast.Ident:
 				if x.Obj != nil && suspect[x.Obj] {
 					into[pkgVars[x.Obj]] = true
